@@ -164,7 +164,7 @@ class SequenceContainer(common.Parseable, common.XmlObject):
             "abstract": str(self.abstract).lower(),
             "name": self.name
         }
-        if self.short_description:
+        if self.short_description is not None:
             sc_attrib["shortDescription"] = self.short_description
 
         sc = em.SequenceContainer(**sc_attrib)
